@@ -4,6 +4,8 @@ import Rooc.BuilderHist
 import Rooc.WireSolve
 import Rooc.Pipes
 import Rooc.Drv.C03
+import Rooc.Drv.C01
+import Rooc.Gen.Consts
 namespace Rooc.Drv.C16
 open Rooc Sexp Builder
 
@@ -16,7 +18,7 @@ def decVars {α : Type} [Wire α] : Sexp → Option (List (String × VarType α)
 /-! ### builder call histories (`history` request)
 
 ```
-request  ::= history (ops OP*) [(solution SOL (handles N*) (exprs E*) (cnames STR*))]
+request  ::= history (ops OP*) [(solution|readback SOL (handles N*) (exprs E*) (cnames STR*))]   -- solution: through solve_with (linearize first); readback: the read-backs only
 OP       ::= (add-var STR T) | (add-vars STR N T) | (with BC) | (with-all BC*) | (maximize E) | (minimize E) | (satisfy)
 BC       ::= (bc STR cmp E E true|false)                      -- all (public) fields of a `BuilderConstraint`
 SOL      ::= (sol (value N) (assign (STR val)*) (rows (STR N)*) (duals (STR N)*))
@@ -87,11 +89,24 @@ def history (α : Type) [Arith α] [Wire α] (ops : List Sexp) (rest : List Sexp
       match s.intoModel with | some m => encRModel m | none => app "index-panic" []]
     match rest with
     | [] => app "ok" head
-    | [.list [.atom "solution", sol, .list (.atom "handles" :: hs), .list (.atom "exprs" :: es), .list (.atom "cnames" :: cs)]] =>
+    | [.list [.atom "readback", sol, .list (.atom "handles" :: hs), .list (.atom "exprs" :: es), .list (.atom "cnames" :: cs)]] =>
+      -- read-backs only (the solution is wrapped with the names directly)
       match (decSol sol : Option (SolverWrap.Solution α)), optAll (hs.map decNat), (optAll (es.map Exp.dec) : Option (List (Exp α))),
           optAll (cs.map fun | .str c => some c | _ => none) with
       | some sol, some hs, some es, some cs =>
         app "ok" (head ++ [readback { solution := sol, variableNames := s.variableNames } hs es cs])
+      | _, _, _, _ => app "err" [.atom "decode-solution"]
+    | [.list [.atom "solution", sol, .list (.atom "handles" :: hs), .list (.atom "exprs" :: es), .list (.atom "cnames" :: cs)]] =>
+      match (decSol sol : Option (SolverWrap.Solution α)), optAll (hs.map decNat), (optAll (es.map Exp.dec) : Option (List (Exp α))),
+          optAll (cs.map fun | .str c => some c | _ => none) with
+      | some sol, some hs, some es, some cs =>
+        -- `solve_with(solver)` with a solver that returns the given solution: linearize first (its error wins), then wrap
+        match s.solveWith (Wire.ofBits 0x3e112e0be826d695) Gen.boundsMaxSteps (fun _ => .ok sol) with   -- tolerance 1e-9
+        | .ok b => app "ok" (head ++ [readback b hs es cs])
+        | .linearization e => app "ok" (head ++ [app "linearization" [Drv.C01.encErr e]])
+        | .indexPanic => app "ok" (head ++ [app "solve-panic" []])
+        | .solver v => app "ok" (head ++ [app "solver" [.atom v]])
+        | .solverPanic => app "ok" (head ++ [app "solve-panic" []])
       | _, _, _, _ => app "err" [.atom "decode-solution"]
     | _ => app "err" [.atom "bad-request"]
 
